@@ -196,7 +196,7 @@ def m_C02(tier):
                         if purge and backend != 'dict':
                             continue
                         cfgs.append(C(mod, alg, ms, purge, 'default', backend, init))
-    pers = ['file', 'dir', 'sql'] if tier == 'thorough' else ['file']
+    pers = ['file', 'dir', 'sql', 'filejson', 'filesrc', 'filesrcbare', 'dirsrc', 'dirjson'] if tier == 'thorough' else ['file', 'filesrcbare', 'sql']
     for mod in MODULES:
         for alg in (ALL if tier == 'thorough' else ('lru', 'no')):
             for b in pers:
@@ -243,6 +243,11 @@ def m_C15(tier):
                 for b in ('file', 'dir', 'sql'):
                     cfgs.append(C(mod, alg, None if alg in ('no', 'inf') else 1, False, 'str', b, nargs=2, spellings=1))
     cfgs += falsy_configs(tier)
+    # safe decorators, arguments the keymap cannot key (counted as a miss when the call completes, as nothing when it raises)
+    for alg in ALL:
+        for km in ('raw', 'hash'):
+            for backend, init in (('none', 'empty'), ('dict', 'seeded_archive')):
+                cfgs.append(C('safe', alg, None if alg in ('no', 'inf') else 1, False, km, backend, init, nargs=2, spellings=1, unkeyable=True))
     return cfgs
 
 
@@ -310,6 +315,10 @@ def m_C20(tier):
                         cfgs.append(C(mod, alg, ms, purge, 'default', backend, init, nargs=2, spellings=1))
             for km in ('str', 'pickle'):
                 cfgs.append(C(mod, alg, sizes[0], False, km, 'dict', nargs=2, spellings=1))
+            # rounding configuration must survive the round trip: float arguments, tol None / 0 / 1, deep or not
+            for tol, deep in ((None, False), (None, True), (0, True), (1, False)):
+                if tier == 'thorough' or alg in ('lru', 'inf', 'mru'):
+                    cfgs.append(C(mod, alg, sizes[0], False, 'str', 'none', nargs=3, spellings=1, args='float', tol=tol, deep=deep))
             for b in (('file',) if tier == 'quick' else ('file', 'dir', 'null')):
                 cfgs.append(C(mod, alg, sizes[0], False, 'str', b, nargs=2, spellings=1))
             # archives whose settings travel only in their pickled state (protocol, compression, ...)
@@ -352,12 +361,14 @@ def ev_for(prop, cfg, tier):
         return base_events(n, sp, mgmt=True, raises=False) + [('redec',), ('raise', 0, 'Boom')]
     if prop == 'C07':
         return base_events(n, sp, mgmt=True) + [('raise', 1, 'Boom')]
+    if prop == 'C15' and cfg.get('unkeyable'):
+        return call_events(n, 1) + [('callu', 0), ('callu', 1), ('callu', 3), ('raiseu', 0), ('raiseu', 3), ('raise', 0, 'Boom'), ('clear',), ('clearks',), ('load',)]
     if prop == 'C15':
         return base_events(n, sp, mgmt=True, raises=True, introspect=False) + [('info',), ('lookup', 0)]
     if prop == 'C16':
         ev = base_events(n, sp, mgmt=True, raises=True)
         if cfg['module'] == 'safe' and cfg.get('unkeyable'):
-            ev = call_events(n, 1) + [('callu', i) for i in range(6)] + [('dump',), ('clear',), ('arch', False), ('arch', True)]
+            ev = call_events(n, 1) + [('callu', i) for i in range(6)] + [('raiseu', 0), ('raiseu', 3), ('dump',), ('clear',), ('arch', False), ('arch', True)]
         return ev
     if prop == 'C18':
         return base_events(n, sp, mgmt=True, introspect=True) + [('raise', 0, 'Boom')]
